@@ -798,7 +798,7 @@ def run(ctx):
                                                               "a vertex of degree >= 13 guaranteed"},
         "history": "adapt image 0.3 + k|sin| per pixel; pixel_signals_from(signal_scale in {0, 0.5, 1, 2, 3}) once or twice before/between the reads "
                    "for 30% (exhaustive), 40% (seeded rectangular), 60% (Delaunay) of the mappers",
-        "scales": {"delaunay_exponents": DEL_SCALES, "rectangular_exponents": RECT_SCALES, "realisations": "enumerated rectangular: 2 per instance, DelSpec answers: 3, "
+        "scales": {"delaunay_exponents": DEL_SCALES, "rectangular_exponents": RECT_SCALES, "realisations": "enumerated rectangular: 2 per instance (quick: 2 for every third, 1 otherwise), DelSpec answers: 3, "
                    "seeded Delaunay/hub: 2, seeded rectangular: 1 (tick length = tau * 2^k)", "rect_far_origin_ticks": [4096.0, -2048.5]},
         "tick_lengths": TAUS, "tick_lengths_delaunay": DEL_TAUS, "rect_jitter_ticks": JIT,
     }
@@ -840,6 +840,8 @@ def run(ctx):
         if inp["id"] == 0:
             key = zlib.crc32(json.dumps([inp["sub"], inp["pos"], inp["my"], inp["mx"]]).encode()) % (2**31)
             inst = complete_dumped(inp, key)
+            if quick and key % 3:  # quick tier: two scales for every third enumerated instance, one (in rotation) for the others
+                inst["scales"] = inst["scales"][:1]
         else:
             inst = by_id[inp["id"]]
             if inst["pos"] != [list(p) for p in inp["pos"]]:
